@@ -254,6 +254,36 @@ func c13CheckDriver(w *c13World, c c13Case) (viol string) {
 	if g != f {
 		return fmt.Sprintf("grpc data source returned %s, file data source returned %s", g, f)
 	}
+	// one prepared statement per data source, executed three times with different arguments
+	{
+		tpl := "a = $1 | b = $2 ; a"
+		argsets := [][]any{{"1", "2"}, {"x", "é"}, {"1", "2"}, {"3", "17"}}
+		gs, gerr := gdb.Prepare(tpl)
+		fs, ferr := fdb.Prepare(tpl)
+		if (gerr == nil) != (ferr == nil) {
+			return fmt.Sprintf("Prepare(%q): grpc error %v, file error %v", tpl, gerr, ferr)
+		}
+		if gerr == nil {
+			defer gs.Close()
+			defer fs.Close()
+			for i, a := range argsets {
+				rd := func(st *sql.Stmt) string {
+					rows, err := st.Query(a...)
+					if err != nil {
+						return "error"
+					}
+					s, err := scanAll(rows)
+					if err != nil {
+						return "scan error"
+					}
+					return s
+				}
+				if g, f := rd(gs), rd(fs); g != f {
+					return fmt.Sprintf("execution #%d of a prepared statement with %v: grpc data source returned %s, file data source returned %s", i+1, a, g, f)
+				}
+			}
+		}
+	}
 	// pool history on the grpc handle: two connections in use at once, one of them closed (idle limit 1), a transaction
 	// holding a connection, then the query again on the surviving connection(s)
 	r1, e1 := gdb.Query(c.Text)
